@@ -36,6 +36,30 @@ func c01Round2(c *Ctx) {
 	for _, f := range truncateNotMax(p) {
 		c.Check(f.OK, "R01h", f.Key, f.Pos, "assigned, not maximised", f.Detail)
 	}
+	c.Rule("R01i", "xmldsig.Sign removes an existing Signature before it digests the document (shared with C19 R19d)", 1)
+	if sign := p.Func("lib/xmldsig.Sign"); sign == nil {
+		c.Undecided("R01i", "xmldsig.Sign", "-", "function not found")
+	} else {
+		hc := p.callsIn(sign, "lib/xmldsig.hashCanon")
+		rm := p.callsIn(sign, "lib/xmldsig.RemoveElements")
+		ok := len(hc) > 0 && len(rm) > 0
+		for _, h := range hc {
+			before := false
+			for _, r := range rm {
+				if reachableAfter(sign, r, h, nil, nil) && !reachableAfter(sign, h, r, nil, nil) {
+					before = true
+				}
+			}
+			if !before {
+				ok = false
+			}
+		}
+		c.Check(ok, "R01i", "Sign removes the old Signature before digesting", p.Pos(sign.Pos()), "RemoveElements before hashCanon", "the reference digest is taken while a previous Signature element is still in the document: signing an already signed manifest succeeds and relic's own verifier then rejects it with a digest mismatch")
+	}
+	c.Rule("R01j", "the inline PGP packet header uses the RFC 4880 length boundaries (shared with C05 R05n)", 2)
+	for _, f := range pgpLengthThresholds(p) {
+		c.Check(f.OK, "R01j", f.Key, f.Pos, "", f.Detail)
+	}
 }
 
 func onePassCopies(p *Prog) (out []gFinding) {
